@@ -16,8 +16,8 @@ def cases(ctx):
     slow = {"RSA-4096", "RSA-8192"}
     keys = [None] + EC_KEYS + RSA_KEYS
 
-    def add(files, key, sig, klass, ent="e"):
-        out.append(case(len(out) + 1, files, tag={"prop": "C05", "ent": ent, "class": klass, "key": key or "", "sig": sig or ""}))
+    def add(files, key, sig, klass, ent="e", misfit=False):
+        out.append(case(len(out) + 1, files, tag={"prop": "C05", "ent": ent, "class": klass, "key": key or "", "sig": sig or "", "misfit": misfit}))
 
     # roots: the signature algorithm must fit the own key
     for k in keys:
@@ -42,11 +42,23 @@ def cases(ctx):
                 # omitted signature algorithm defaults to the scheme of the entity's own key type: it only fits when the types agree
                 own_rsa = (k or "").startswith("RSA")
                 if s is None and own_rsa != ik.startswith("RSA"):
+                    # ... so here it does not fit: no certificate, or one that names the documented default all the same
+                    add([("ca.yaml", cfg("CN=issuer", keyAlgorithm=ik, signatureAlgorithm=isigs[1])),
+                         ("sub/e.yaml", cfg("CN=sub", issuer="ca", keyAlgorithm=k))], k, None, "sub under %s (default scheme does not fit)" % ik, misfit=True)
                     continue
                 if ctx.quick and s not in (None, isigs[1]) and k not in (None, "P-521", "RSA-2048", "brainpoolP512t1"):
                     continue
                 add([("ca.yaml", cfg("CN=issuer", keyAlgorithm=ik, signatureAlgorithm=isigs[1])),
                      ("sub/e.yaml", cfg("CN=sub", issuer="ca", keyAlgorithm=k, signatureAlgorithm=s))], k, s, "sub under " + ik)
+    # configured signature algorithms of the scheme the signing key cannot do: never a certificate that names another algorithm than configured
+    for ik, isigs, other in [("P-256", EC_SIGS, RSA_SIGS), ("RSA-1024", RSA_SIGS, EC_SIGS), ("brainpoolP384r1", EC_SIGS, RSA_SIGS)]:
+        for k in (None, "P-384", "RSA-1024", "brainpoolP256r1"):
+            for s in other:
+                add([("ca.yaml", cfg("CN=issuer", keyAlgorithm=ik, signatureAlgorithm=isigs[1])),
+                     ("sub/e.yaml", cfg("CN=sub", issuer="ca", keyAlgorithm=k, signatureAlgorithm=s))], k, s, "sub under %s (configured scheme does not fit)" % ik, misfit=True)
+    for k, other in (("P-256", RSA_SIGS), (None, RSA_SIGS), ("RSA-1024", EC_SIGS), ("brainpoolP512r1", RSA_SIGS)):
+        for s in other:
+            add([("e.yaml", cfg("CN=root", keyAlgorithm=k, signatureAlgorithm=s))], k, s, "root (configured scheme does not fit)", misfit=True)
     # an entity that HAS a key already (user-supplied PKCS#8) and whose configuration names no algorithm at all: the default
     # signature scheme is that of the entity's key type
     for k in ("P-256", "RSA-1024", "P-384"):
@@ -66,4 +78,4 @@ def run(ctx, replay=None):
                             {"explanation": "all 14 key names x (8 fitting signature names + omitted) for roots (RSA-4096/8192 only in thorough), subordinates "
                                             "under P-256, RSA-1024 and brainpoolP384r1 issuers", "exhaustive": not ctx.quick})
     return ctx.finish("exploration", cov, ["key shape facts (modulus length, on-curve, key block matches certificate) come from the independent projection",
-                                           "combinations whose signature algorithm does not fit the signing key are C01's (the run must fail)"])
+                                           "combinations whose signature algorithm does not fit the signing key: that the run fails is C01's; here a certificate that comes out all the same must still name the configured / documented-default algorithm"])
